@@ -434,7 +434,12 @@ class SymEval:
             if ids is not None and b.id not in ids:
                 continue
             tnode = self.fm.cfg.nodes[next(iter(self.fm.cfg.g.predecessors(b.id)))]
-            f = self.translator(tnode).f(b.test)
+            # names bound by `:=` inside the test stand for their values in the rest of the test
+            wal: dict = {}
+            for w in ast.walk(b.test):
+                if isinstance(w, ast.NamedExpr) and isinstance(w.target, ast.Name):
+                    wal[w.target.id] = self.val(w.value, tnode, wal or None)
+            f = logic.Translator(lambda e, tnode=tnode, wal=wal: self.val(e, tnode, wal)).f(b.test) if wal else self.translator(tnode).f(b.test)
             fs.append(f if b.pol else logic.Not(f))
         return logic.And(*fs)
 
